@@ -176,6 +176,80 @@ func c16ListJudge(in c16List, failRaw func(k, w string)) {
 	}
 }
 
+// c16CtorSeq: a sequence of Add… constructor calls on one list (refused calls included: whatever a refused call leaves
+// behind is part of what is serialised next), judged by serialising and parsing back.
+type c16Ctor struct {
+	Fn  string `json:"fn"`
+	Arg string `json:"arg_hex,omitempty"` // address octets (nil when absent and Nil is set) or the MTU as two octets
+	Nil bool   `json:"nil_arg,omitempty"`
+}
+
+type c16CtorSeq struct {
+	Calls []c16Ctor `json:"calls"`
+}
+
+func c16CtorSeqExec(c *core.Ctx, in c16CtorSeq) {
+	fail := func(k, w string) { c.FailCase("pco|ctor-seq|"+k, fmt.Sprintf("calls %+v: %s", in.Calls, w), "pco-ctor-seq", in) }
+	pco := nasConvert.NewProtocolConfigurationOptions()
+	var enc []byte
+	var err error
+	back := nasConvert.NewProtocolConfigurationOptions()
+	pi := core.Try(func() {
+		for _, cl := range in.Calls {
+			var ip net.IP
+			if !cl.Nil {
+				ip = net.IP(unhex(cl.Arg))
+			}
+			switch cl.Fn {
+			case "AddDNSServerIPv4AddressRequest":
+				pco.AddDNSServerIPv4AddressRequest()
+			case "AddDNSServerIPv6AddressRequest":
+				pco.AddDNSServerIPv6AddressRequest()
+			case "AddIPAddressAllocationViaNASSignallingUL":
+				pco.AddIPAddressAllocationViaNASSignallingUL()
+			case "AddDNSServerIPv4Address":
+				_ = pco.AddDNSServerIPv4Address(ip)
+			case "AddPCSCFIPv4Address":
+				_ = pco.AddPCSCFIPv4Address(ip)
+			case "AddDNSServerIPv6Address":
+				_ = pco.AddDNSServerIPv6Address(ip)
+			case "AddIPv4LinkMTU":
+				b := unhex(cl.Arg)
+				_ = pco.AddIPv4LinkMTU(uint16(b[0])<<8 | uint16(b[1]))
+			}
+		}
+		enc = pco.Marshal()
+		err = back.UnMarshal(append([]byte{}, enc...))
+	})
+	if pi != nil {
+		fail(pi.Key(), "panics: "+pi.Msg)
+		return
+	}
+	if err != nil || len(back.ProtocolOrContainerList) != len(pco.ProtocolOrContainerList) {
+		fail("roundtrip", fmt.Sprintf("the list built by the constructors (%d units, %x) does not parse back: %v, %d units", len(pco.ProtocolOrContainerList), clip(enc), err, len(back.ProtocolOrContainerList)))
+		return
+	}
+	for i, u := range pco.ProtocolOrContainerList {
+		g := back.ProtocolOrContainerList[i]
+		if g.ProtocolOrContainerID != u.ProtocolOrContainerID || !bytes.Equal(g.Contents, u.Contents) || int(g.LengthOfContents) != len(g.Contents) {
+			fail("unit", fmt.Sprintf("unit %d (id %#x) parses back as id %#x length %d", i, u.ProtocolOrContainerID, g.ProtocolOrContainerID, g.LengthOfContents))
+			return
+		}
+	}
+}
+
+func c16CtorAlphabet() []c16Ctor {
+	out := []c16Ctor{{Fn: "AddDNSServerIPv4AddressRequest"}, {Fn: "AddDNSServerIPv6AddressRequest"}, {Fn: "AddIPAddressAllocationViaNASSignallingUL"},
+		{Fn: "AddIPv4LinkMTU", Arg: "0578"}, {Fn: "AddIPv4LinkMTU", Arg: "ffff"}}
+	addrs := []c16Ctor{{Nil: true}, {Arg: ""}, {Arg: "08080808"}, {Arg: "00000000000000000000ffff08080808"}, {Arg: "20014860486000000000000000008888"}, {Arg: "010203"}, {Arg: "0a00000109"}}
+	for _, fn := range []string{"AddDNSServerIPv4Address", "AddPCSCFIPv4Address", "AddDNSServerIPv6Address"} {
+		for _, a := range addrs {
+			out = append(out, c16Ctor{Fn: fn, Arg: a.Arg, Nil: a.Nil})
+		}
+	}
+	return out
+}
+
 func c16RawExec(c *core.Ctx, in c16Raw) {
 	data := unhex(in.Hex)
 	c.Distinct(core.Hash64("raw", data), len(data) >= 4)
@@ -366,6 +440,21 @@ func c16Run(c *core.Ctx) {
 				if c.Begin("pco-list", "ProtocolConfigurationOptions", in) {
 					c16ListExec(c, in)
 					n++
+				}
+			}
+		}
+		// every sequence of up to three constructor calls over 26 calls (each adder with no, an empty, a 4-octet, an
+		// IPv4-mapped 16-octet, an IPv6, a 3- and a 5-octet address)
+		{
+			alpha := c16CtorAlphabet()
+			for _, a := range alpha {
+				c16CtorSeqExec(c, c16CtorSeq{Calls: []c16Ctor{a}})
+				for _, b := range alpha {
+					c16CtorSeqExec(c, c16CtorSeq{Calls: []c16Ctor{a, b}})
+					for _, d := range alpha {
+						c16CtorSeqExec(c, c16CtorSeq{Calls: []c16Ctor{a, b, d}})
+						n++
+					}
 				}
 			}
 		}
@@ -599,6 +688,7 @@ func c16Run(c *core.Ctx) {
 
 func init() {
 	core.RegisterKind("C16", "pco-list", c16ListExec)
+	core.RegisterKind("C16", "pco-ctor-seq", c16CtorSeqExec)
 	core.RegisterKind("C16", "pco-hist", c16HistExec)
 	core.RegisterKind("C16", "pco-raw", c16RawExec)
 	core.RegisterKind("C16", "psi", c16PsiExec)
